@@ -40,7 +40,7 @@ m = {
         {
             "name": "rapid+gofuzz harness",
             "path": "harness/",
-            "serves_properties": sorted(props.PROPS.keys()),
+            "serves_properties": sorted(set(props.PROPS.keys()) & set(open(os.path.join(VERIF, "lib", "ready.txt")).read().split())),
             "kind_free_text": "property-based testing (pgregory.net/rapid v1.3.0, stateful and model based) and native go fuzzing, driven by ./check (python3) which shards by seed, supervises children, merges stats into evidence",
         }
     ],
@@ -48,8 +48,11 @@ m = {
     "not_applicable": [],
     "notes": "All checks: ./check <ID> [--tier quick|thorough] [--replay FILE]; VERIF_SEED selects the rapid seeds. known-findings.txt lists open/fixed findings.",
 }
+READY = set(open(os.path.join(VERIF, "lib", "ready.txt")).read().split())
 for pid in ALL:
     cfg = props.PROPS.get(pid)
+    if cfg and pid not in READY:
+        cfg = None
     if not cfg or cfg.get("unclaimed"):
         m["not_applicable"].append({"property_id": pid, "reason": (cfg or {}).get("unclaimed", "check not built yet (work in progress; see DESIGN.md build order)")})
         continue
